@@ -286,7 +286,25 @@ fn random_case(bytes: &[u8]) -> SchedCase {
             let depth = 1 + d.below(3) as u32;
             (format!("r{i}"), gen_call_expr(&mut d, depth, true))
         })
-        .collect();
+        .collect::<Vec<_>>();
+    let mut rules: Vec<(String, Expr)> = rules;
+    // rules without calls whose value depends on the input (directly, or through one branch only): a result must not
+    // be remembered from an evaluation of another input
+    // (no calls in these rules: invocations are attributed to evaluations through the id inside call arguments)
+    let cfg = gen::ExprCfg { fn_names: vec!["nofn".into()], sym_names: vec!["nosym".into()], typed_weight: 7 };
+    let nb = d.below(3);
+    for i in 0..nb {
+        let e = match d.below(5) {
+            0 => Expr::iif(Expr::value(true), Expr::reff("id"), Expr::value(0)),
+            1 => Expr::iif(Expr::value(false), Expr::value("constant".to_string()), Expr::add(Expr::reff("id"), Expr::reff("vi"))),
+            2 => Expr::Vec(vec![Expr::value(1), Expr::index(Expr::Vec(vec![Expr::reff("id")]), reval::expr::Index::Vec(0))]),
+            _ => {
+                let want = *d.pick(&gen::CONCRETE);
+                gen::gen_expr(&mut d, want, 3, &cfg)
+            }
+        };
+        rules.push((format!("b{i}"), e));
+    }
     let suspend = d.below(4) as u32;
     let n = 1 + d.below(4);
     let same_input = d.below(5) >= 3;
